@@ -212,7 +212,7 @@ def gen_mps_case(rng):
     d = rng.choice([2, 2, 3])
     n = rng.randint(2, 6 if d == 2 else 4)
     fs = rand_gi_chain(rng, n, d, rng.randint(1, 3))
-    shots = rng.choice([0, 1, 5, 31, 32, 33, 64, 65, 70])
+    shots = rng.choice([0, 1, 5, 31, 32, 32, 33, 63, 64, 64, 65, 70, 96, 128])
     distinct = [[rng.randrange(d) for _ in range(n)] for _ in range(rng.randint(1, 4))]
     return {"kind": "mps_scripted", "d": d, "n": n, "shots": shots, "strings": distinct,
             "factors": [[list(t.shape), [[z.real, z.imag] for z in t.reshape(-1).tolist()]] for t in fs]}
@@ -239,11 +239,16 @@ def impl_mps_scripted(c):
         if qubit == 0:
             batch_sizes.append(probs.shape[0])
         base = 32 * batch
-        return torch.tensor([[strings[(base + i) % len(strings)][qubit]] for i in range(probs.shape[0])])
+        return torch.tensor([strings[(base + i) % len(strings)][qubit] for i in range(probs.shape[0])],
+                            dtype=torch.int64).reshape(probs.shape[0], 1)
 
     proxy = _TorchProxy(torch, chooser, exact_norm=True)
     with rebind(mm, "torch", proxy):
-        out = st.sample(num_shots=c["shots"])
+        try:
+            out = st.sample(num_shots=c["shots"])
+        except Exception as ex:  # noqa: BLE001 - sampling a valid state must not raise
+            return {"out": {}, "batch_sizes": batch_sizes, "rows": {}, "consistent": True,
+                    "raised": f"{type(ex).__name__}: {str(ex)[:120]}"}
     # rows[call][i] is the weight row of shot 32*batch+i at site `qubit`
     per_string = {}
     consistent = True
@@ -291,6 +296,9 @@ def check_mps_scripted(c, r, vals):
 
 
 def oracle_mps_scripted(ctx, c, r):
+    if r.get("raised"):
+        ctx.violation(f"MPS.sample(num_shots={c['shots']}) raised {r['raised']}", {"case": c, "finding_key": "sample-raises"})
+        return
     if sum(r["out"].values()) != c["shots"] or any(len(s) != c["n"] for s in r["out"]):
         ctx.violation(f"MPS.sample returned {sum(r['out'].values())} bitstrings for num_shots={c['shots']}",
                       {"case": c, "finding_key": "shot-count"})
@@ -362,6 +370,59 @@ def check_sv_scripted(c, r, vals):
     if dict(Counter(strs)) != r["out"]:
         return f"strings: model {strs} real {r['out']}"
     return None
+
+
+TOTALS = [1, 31, 32, 33, 63, 64, 65, 96, 1024, 2048]
+
+
+def totals_stage(ctx, hist):
+    """the REAL samplers (unscripted): total count and string length for shot counts around the batch size, every
+    representation, with and without readout errors"""
+    import torch
+    from emu_mps.mps import MPS
+    from emu_sv.state_vector import StateVector
+    from emu_sv.density_matrix_state import DensityMatrix
+
+    torch.manual_seed(ctx.rng.getrandbits(40))
+    n = 3
+    v = torch.tensor([1, 1j, 0, 2, -1, 0, 1, 1], dtype=torch.complex128)
+    states = {
+        "mps2": lambda: MPS([torch.tensor([[[1.0, 2.0], [1j, 0.0]]], dtype=torch.complex128),
+                             torch.tensor([[[1.0, 0.0], [0.0, 1.0]], [[0.0, 1.0], [1.0, 1j]]], dtype=torch.complex128),
+                             torch.tensor([[[1.0], [1.0]], [[2.0], [-1.0]]], dtype=torch.complex128)],
+                            num_gpus_to_use=0, eigenstates=("r", "g")),
+        "mps3": lambda: MPS([torch.tensor([[[1.0], [1.0], [1.0]]], dtype=torch.complex128) for _ in range(n)],
+                            num_gpus_to_use=0, eigenstates=("g", "r", "x")),
+        "sv": lambda: StateVector(v.clone(), gpu=False),
+        "dm": lambda: DensityMatrix(torch.outer(v, v.conj()), gpu=False),
+    }
+    for name, make in states.items():
+        for errs in (False, True):
+            kw = {}
+            if errs:
+                kw = dict(p_false_neg=0.25) if name == "mps3" else dict(p_false_pos=0.125, p_false_neg=0.25)
+            for shots in TOTALS:
+                c = {"kind": "totals", "state": name, "shots": shots, "errors": errs}
+                try:
+                    out = make().sample(num_shots=shots, **kw)
+                    total, lens = sum(out.values()), {len(s) for s in out}
+                    if total != shots or (lens - {n}):
+                        ctx.violation(f"{name}.sample(num_shots={shots}{', readout errors' if errs else ''}) returned "
+                                      f"{total} bitstrings (lengths {sorted(lens)})", {"case": c, "finding_key": "shot-count"})
+                except Exception as ex:  # noqa: BLE001
+                    ctx.violation(f"{name}.sample(num_shots={shots}) raised {type(ex).__name__}: {str(ex)[:120]}",
+                                  {"case": c, "finding_key": "sample-raises"})
+                ctx.count_case(c, True)
+                hist["totals/" + name] = hist.get("totals/" + name, 0) + 1
+
+
+def replay_totals(ctx, c):
+    saved = TOTALS[:]
+    TOTALS[:] = [c["shots"]]
+    try:
+        totals_stage(ctx, {})
+    finally:
+        TOTALS[:] = saved
 
 
 def gate_cases():
@@ -619,6 +680,8 @@ def run(ctx):
                    "StateVector.sample/DensityMatrix.sample with scripted random()/multinomial (exact)",
                    corr_ok, detail, kind="correspondence")
 
+    totals_stage(ctx, hist)
+
     # ---- statistical correspondence of the real samplers ---------------------------------------
     scases = [c for c in corpus_cases() if c["kind"].startswith("stat")]
     for kind, nq, nt in (("stat_sv", 16, 150), ("stat_dm", 10, 80), ("stat_mps", 16, 150)):
@@ -654,8 +717,9 @@ def run(ctx):
     ctx.extra["input_distribution"] = dict(sorted(hist.items()))
     ctx.rule = ("exact: random Counters of 1-4 bitstrings (length 1-6, counts 0-6), rates in {0, 1, k/16, random float}, "
                 "streams with 40% draws exactly equal to a rate (strict <), Gaussian-integer MPS (qubit 2-6, qutrit 2-4 "
-                "atoms) with num_shots in {0,1,5,31,32,33,64,65,70} and scripted outcomes incl. zero-weight ones, "
-                "Gaussian-integer state vectors N<=5 / density matrices N<=3 (also negative diagonal entries), all 16+8 "
+                "atoms) with num_shots in {0,1,5,31,32,33,63,64,65,70,96,128} and scripted outcomes incl. zero-weight ones, "
+                "totals of the real samplers (MPS qubit/qutrit, state vector, density matrix; with and without readout errors) "
+                "for num_shots in {1,31,32,33,63,64,65,96,1024,2048}; Gaussian-integer state vectors N<=5 / density matrices N<=3 (also negative diagonal entries), all 16+8 "
                 "gate configurations; statistical: integer-amplitude states of 2-8 atoms, shots 200-5000 (20000 thorough), "
                 "40% with readout errors; every case non-trivial unless it has no shots / N=1; distinct by input hash")
     ctx.trusted_base += ["torch.multinomial draws index i with probability w_i / sum w and random.random() is uniform "
@@ -676,7 +740,9 @@ def replay(ctx, path):
     rp = json.loads(open(path).read())
     c = rp["case"]
     k = c["kind"]
-    if k == "readout":
+    if k == "totals":
+        replay_totals(ctx, c)
+    elif k == "readout":
         oracle_readout(ctx, c, impl_readout(c))
     elif k == "mps_scripted":
         oracle_mps_scripted(ctx, c, impl_mps_scripted(c))
